@@ -475,7 +475,7 @@ func linHistory(c *hx.Ctx, k int, r *rand.Rand) {
 			}
 		}
 	}
-	res, info := porcupine.CheckOperationsVerbose(model, ops, 60*time.Second)
+	res, info := porcupine.CheckOperationsVerbose(model, ops, 15*time.Second)
 	c.Add("operations_recorded", int64(len(ops)))
 	c.Add("overlapping_same_key_pairs", int64(overlap))
 	switch res {
